@@ -175,8 +175,13 @@ func lookupMethod(i *interpreter, typ types.Type, meth *types.Func) *ssa.Functio
 }
 
 func rtPanic(i *interpreter, msg string) {
+	if debugPanics {
+		fmt.Fprintf(os.Stderr, "rtPanic %q at %s\n", msg, strings.Join(i.stackStrings(), " > "))
+	}
 	panic(targetPanic{v: runtimeErr(i, msg)})
 }
+
+var debugPanics = os.Getenv("SYMGO_DEBUG") != ""
 
 func runtimeErr(i *interpreter, msg string) value {
 	return iface{t: runtimeErrorStringT, v: msg}
